@@ -3,6 +3,7 @@
    stored in arbitrary coordinate systems; the per-element columns the real reducers add up are the accessors of C01. *)
 From Coq Require Import Reals List.
 From VP Require Import Lib RLib Spec Compute Tables Spec_lorentz Layout C17_reduce.
+From VP Require ObjModel ObjNames ObjApi ObjChecks NpReduce ReduceChecks NbModel.
 Import ListNotations.
 Open Scope R_scope.
 
@@ -46,3 +47,13 @@ Theorem C17_count_laws : forall (V : Type) (is_zero : V -> bool),
   (forall l, (count_nonzero is_zero l <= length l)%nat) /\
   (forall l, (forall v, In v l -> is_zero v = false) -> count_nonzero is_zero l = length l).
 Proof. intros. exact (conj (count_nonzero_app is_zero) (conj (count_nonzero_bound is_zero) (count_nonzero_all is_zero))). Qed.
+
+(* The REAL NumPy reducer, executed symbolically (T6, gen/NpReduce.v): numpy.sum / .sum() of vector arrays of 1, 3 and 2x2 symbolic
+   elements, axis in {None, 0, 1, -1, (0,1)}, keepdims, for all 20 coordinate systems x 2 flavors.  Every output element is a
+   Cartesian vector of the operand's flavor whose components are the sums, over exactly the input elements NumPy reduces into it
+   and in its order, of the elements' Cartesian accessors (the object backend's accessors of the T3 table, i.e. the generated
+   compute definitions) — the summands of C17_summands_are_cartesian_components; sizes beyond these are the induction above. *)
+Theorem C17_numpy_sum_adds_cartesian_accessors :
+  forallb VP.ReduceChecks.check_reduce VP.NpReduce.reduce_tab = true /\
+  Nat.ltb 600 (VP.NbModel.count VP.ReduceChecks.multi VP.NpReduce.reduce_tab) = true.
+Proof. vm_cast_no_check (conj (eq_refl true) (eq_refl true)). Qed.
